@@ -3,7 +3,7 @@ C14 — the safe API is memory-safe under every interleaving (PARTIAL by nature:
 carry is the temporal protocol the unsafe sites rely on; machine-level memory safety is trusted).
 -/
 import DesyncModel.Spec
-import DesyncModel.Tables
+import DesyncModel.Tables.Sync
 import DesyncModel.FactDrop
 import DesyncModel.Lemmas
 import DesyncModel.Setters
